@@ -11,7 +11,7 @@ from typing import List
 import z3
 
 from vt import py2smt as P
-from vt.core import REPO, tick
+from vt.core import REPO, shard, tick
 from vt.py2smt import R
 
 UT = 'replicat/utils/__init__.py'
@@ -519,3 +519,113 @@ def r4_write_seek(a: bytes, wret: int, pos: int, whence: int, sret: int, cut: in
     with NoTracing():
         tick('r4w', None)
     return (r1, r2, r3, r4) == (wret, sret, tret, 7) and f.calls == [('write', a), ('seek', (pos, whence), {}), ('truncate', (cut,), {}), ('tell', (), {})]
+
+
+# ----------------------------------------------------------------------------- R6: several streams with instantaneous I/O (cooperative threads)
+class _CoopLock:
+    def __init__(self):
+        self.held = False
+
+    def __enter__(self):
+        assert not self.held
+        self.held = True
+        return self
+
+    def __exit__(self, *a):
+        self.held = False
+
+
+class _VClock:
+    """Virtual time for cooperative threads: sleeping inside a critical section advances the clock at once (nobody else can
+    pause meanwhile); sleeping outside one parks the thread until the clock reaches its wake-up time."""
+
+    def __init__(self, locks):
+        self.now, self.locks, self.current = 0.0, locks, None
+        self.wake = {}
+
+    def perf_counter(self):
+        return self.now
+
+    def sleep(self, s):
+        if any(l.held for l in self.locks):
+            self.now += s
+        else:
+            self.wake[self.current] = self.now + s
+
+    def __getattr__(self, n):
+        return getattr(_time, n)
+
+
+def _lift_pause(kind):
+    from vt import lift
+    import replicat.utils as U
+    mod, tree = lift._module_tree('replicat.utils')
+    cls = [n for n in tree.body if isinstance(n, ast.ClassDef) and n.name == 'RateLimitedIO'][0]
+    fn = [n for n in cls.body if isinstance(n, ast.FunctionDef) and n.name == ('pause_reads' if kind == 'read' else 'pause_writes')][0]
+    fn = lift.Yielder({'_read_lock', '_write_lock'}, spin=True).instrument(fn)
+    m = ast.Module(body=[fn], type_ignores=[])
+    ast.fix_missing_locations(m)
+    ns = dict(mod.__dict__)
+    exec(compile(m, '<coop RateLimitedIO.pause>', 'exec'), ns)
+    return ns[fn.name], ns
+
+
+def streams_case(kind, n_streams, calls, sched, L=1000):
+    import replicat.utils as U
+    pause, ns = _lift_pause(kind)
+    lim = U.RateLimitedIO(L)
+    lim._read_lock, lim._write_lock = _CoopLock(), _CoopLock()
+    clock = _VClock([lim._read_lock, lim._write_lock])
+    ns['time'] = clock
+    d = L // 4
+    passed = [0]
+    log = []
+
+    def stream(i):
+        for _ in range(calls):
+            passed[0] += d                   # the underlying read/write is instantaneous: real_elapsed = 0
+            log.append((clock.now, passed[0]))
+            yield from pause(lim, d / L)
+    gens = {i: stream(i) for i in range(n_streams)}
+    si = 0
+    guard = 0
+    while gens:
+        guard += 1
+        if guard > 100000:
+            return False, 'simulation does not terminate'
+        runnable = [i for i in gens if clock.wake.get(i, 0.0) <= clock.now]
+        if not runnable:
+            clock.now = min(clock.wake[i] for i in gens)
+            continue
+        i = runnable[sched[si % len(sched)] % len(runnable)]
+        si += 1
+        clock.current = i
+        try:
+            next(gens[i])
+        except StopIteration:
+            del gens[i]
+    T = clock.now
+    total = passed[0]
+    # every window that starts at a call and ends at the end of the run / at a later call
+    for (t0, b0) in log:
+        for (t1, b1) in log + [(T, total)]:
+            if t1 >= t0 and b1 - (b0 - d) > L * (t1 - t0) + 0.26 * L + n_streams * d:
+                return False, f'{n_streams} streams with instantaneous I/O passed {b1 - b0 + d} bytes in {t1 - t0:.3f}s under L={L} (schedule {sched})'
+    return True, ''
+
+
+def r6_streams_instant(k: int) -> bool:
+    """N streams sharing one limiter whose underlying I/O takes no time (so the per-call credit that causes F9 is zero): the
+    window bound holds under every interleaving of the pause sections.
+    pre: shard(2 * 3 * 4 * 4 * 4 * 4)[0] <= k < shard(2 * 3 * 4 * 4 * 4 * 4)[1]
+    post: _
+    """
+    from crosshair.tracers import NoTracing
+    from vt.core import digits
+    ki, ni, s0, s1, s2, s3 = digits(k, [2, 3, 4, 4, 4, 4])
+    with NoTracing():
+        ok, msg = streams_case(['read', 'write'][ki], ni + 2, 6, [s0, s1, s2, s3])
+        tick('r6', [ki, ni + 2, s0, s1, s2, s3])
+        if not ok and os.environ.get('VT_REPLAY'):
+            print('DETAIL:', msg)
+        return ok
